@@ -67,6 +67,10 @@ fn main() {
         }
         "questrade" => {
             let scratch = questrade::Scratch::new();
+            // minimised past failures first (corpus/C18/*.case next to the harness crate)
+            for s in questrade::corpus_cases(&scratch) {
+                w.write_all(s.as_bytes()).unwrap();
+            }
             let mut r = rng::Rng::new(seed ^ 0x5154);
             for i in 0..count {
                 let mut cr = r.fork();
